@@ -158,6 +158,8 @@ var c05Fixed = [][]string{
 	{`func cnt(n) { t = 0; for n := 2:n { t = t + n }; t }`, `println(cnt(5))`},
 	{`func idx(a, x) { for i = len(a) { if a[i] == x { return i } }; -1 }`, `println(idx([5, 6, 7], 6), idx([5, 6, 7], 9))`},
 	{`func eqs(x, y) { [x == y, y == x, 3 == x, x == 3, x != y, 2 != y] }`, `println(eqs(3, 3), eqs(3, 2))`},
+	{`func todds(n) { out = []; for k = n { if k % 2 == 1 { k = k * 3 }; out = out + k }; out }`, `println(todds(6))`},
+	{`func isq(n) { for i = n { if i * i > n { break }; i } }`, `println(isq(10), isq(17), isq(2))`, `func xcf() { for i = 5 { if i > 2 { continue }; i } }`, `println(xcf())`},
 	{`func cmp3(x) { t = 0; for i = 4 { if 2 == i { t = t + 10 }; if i == x { t = t + 1 }; if x == i { t = t + 100 } }; t }`, `println(cmp3(2), cmp3(7))`},
 }
 
